@@ -29,6 +29,7 @@
 
 #include <cstring>
 #include <tins/llc.h>
+#include <tins/small_uint.h>
 #include <tins/stp.h>
 #include <tins/rawpdu.h>
 #include <tins/exceptions.h>
@@ -133,7 +134,8 @@ void LLC::send_seq_number(uint8_t seq_number) {
 	if (type() != LLC::INFORMATION) {
 		return;
     }
-	control_field.info.send_seq_num = seq_number;
+	// The sequence numbers are 7 bit fields: reject what doesn't fit
+	control_field.info.send_seq_num = small_uint<7>(seq_number);
 }
 
 void LLC::receive_seq_number(uint8_t seq_number) {
@@ -141,10 +143,10 @@ void LLC::receive_seq_number(uint8_t seq_number) {
 		case LLC::UNNUMBERED:
 			return;
 		case LLC::INFORMATION:
-			control_field.info.recv_seq_num = seq_number;
+			control_field.info.recv_seq_num = small_uint<7>(seq_number);
 			break;
 		case LLC::SUPERVISORY:
-			control_field.super.recv_seq_num = seq_number;
+			control_field.super.recv_seq_num = small_uint<7>(seq_number);
 			break;
 	}
 }
